@@ -498,7 +498,7 @@ pub const DEF: PropertyDef = PropertyDef {
            bytes or unlimited). all_chunkings_small: every subset of cut points of 10 small documents. Oracle: decode(reader) and \
            decode_slice both Err or both Ok with equal observation and equal re-serialised bytes; is_sourcemap(reader) == is_sourcemap_slice; \
            decode_data_url(base64 of the bytes) has the same outcome; header+\\n/\\r\\n+valid document == bare document; bare \\r + byte is \
-           rejected. Non-trivial = junk header, valid document behind it, and a cut strictly inside the header / inside \\r\\n or 1-byte reads",
+           rejected. Typed entry points (SourceMap / SourceMapIndex / SourceMapHermes from_slice vs from_reader under the same chunking, each against decode_slice) and DecodedMap::from_reader; bodies with a leading byte order mark; JSON keys written with unicode escapes. Non-trivial = junk header, valid document behind it, and a cut strictly inside the header / inside \\r\\n or 1-byte reads",
     assumptions: &["the harness reader never returns 0 before the end of the data (a 0-length read means EOF to any io::Read consumer)"],
     subs,
 };
